@@ -22,7 +22,7 @@ def deriveAnswer (o : Oracle) (thr : Nat) (t : Trait) (d : DeclD) (sp : DeclSpan
   let sim := fun (n : String) => Suggest.didYouMean thr [("with", o.score n "with")]
   match derive t o sim sp d with
   | .ok _ => "(impl)"
-  | .err e => toString (tagged "errors" [obsErr e])
+  | .err e => toString (tagged "errors" (e.toSyn.map synRowOf))
   | .panic _ => "(panic)"
 
 def answer (corpus : Corpus) (global : Oracle) (thr : Nat) (c : Sexp) : String :=
